@@ -170,13 +170,13 @@ def directed(ctx, rng, klass: str):
 
 def run(ctx) -> None:
     classes = ["A", "B", "S", "K", "M1", "M2", "salt0"] + [f"saltlz{n}" for n in range(1, 16)]
-    per_class = ctx.pick(3, 40)
+    per_class = ctx.pick(3, 80)
     jobs = []
     for klass in classes:
         n = per_class if not klass.startswith("saltlz") else max(1, per_class // 3)
         for i in range(n):
             jobs.append(("directed", klass, i))
-    for i in range(ctx.pick(200, 5000)):
+    for i in range(ctx.pick(200, 12000)):
         jobs.append(("random", None, i))
     for j, (kind, klass, i) in enumerate(jobs):
         if not ctx.mine(j):
